@@ -242,7 +242,7 @@ impl CheckDef for SpReorder {
 }
 
 pub fn run(ctx: &mut Ctx) {
-    ctx.rule("SP: the endpoint writes generated amounts/chunks; the scripted peer answers with generated cumulative ACK schedules and window values (growing, shrinking, zero, re-opening, < mss), withheld ACKs (-> RTO), and peer data packets (1 B..9000 B, clipped to the link: also larger than the socket's own segment size) that carry the acknowledgement and a new window; MSS/buffer/Nagle varied, half of the cases without MTU probing. Oracle at every first transmission (wire-log order; a peer packet injected at the same instant is evaluated both as processed and as unprocessed — unless the emission acknowledges that very (data) packet, which proves it was processed): outstanding <= last window outside possible recovery, nothing new at window 0, outstanding <= 2*mss + acked before the first loss event, a single segment after an RTO until an advancing ack. non-trivial = >=3 window values incl. a shrink or zero and >=10 first transmissions; distinct by hash of (seq, len, window) sequence");
+    ctx.rule("SP: the endpoint writes generated amounts/chunks; the scripted peer answers with generated cumulative ACK schedules and window values (growing, shrinking, zero, re-opening, < mss), withheld ACKs (-> RTO), retransmitted peer data packets stamped with a newer window, and peer data packets (1 B..9000 B, clipped to the link: also larger than the socket's own segment size) that carry the acknowledgement and a new window; MSS/buffer/Nagle varied, half of the cases without MTU probing. Oracle at every first transmission (wire-log order; a peer packet injected at the same instant is evaluated both as processed and as unprocessed — unless the emission acknowledges that very (data) packet, which proves it was processed): outstanding <= last window outside possible recovery, nothing new at window 0, outstanding <= 2*mss + acked before the first loss event, a single segment after an RTO until an advancing ack. non-trivial = >=3 window values incl. a shrink or zero and >=10 first transmissions; distinct by hash of (seq, len, window) sequence");
     ctx.assume("'possibly in loss recovery' is a conservative superset (2nd duplicate or any SACK until the ack passes the highest seq sent then)");
     ctx.replay_corpus::<Sp>();
     ctx.replay_corpus::<SpReorder>();
